@@ -25,10 +25,10 @@ vars == <<a, pos, off, consumed, hist, done>>
 Init ==
   /\ \E r \in RootLists, k \in 0..MaxLen, c \in Conts : \E s \in [1..k -> SecIds] :
         a = [roots |-> r, secs |-> s, ver |-> c.ver, dpad |-> c.dpad, ipad |-> c.ipad, idx |-> c.idx,
-             full |-> c.full, npad |-> c.npad]
+             full |-> c.full, npad |-> c.npad, hx |-> IF "hx" \in DOMAIN c THEN c.hx ELSE 0]
   /\ pos = 1
-  /\ off = DataBase(a) + HeaderLen(a.roots)
-  /\ consumed = DataBase(a) + HeaderLen(a.roots)   \* bytes taken from the underlying source so far
+  /\ off = DataBase(a) + HLen(a)           \* the bytes the header occupies, not the size of its re-encoding
+  /\ consumed = DataBase(a) + HLen(a)      \* bytes taken from the underlying source so far
   /\ hist = <<>>
   /\ done = FALSE
 
@@ -73,7 +73,7 @@ OffsetExact ==
 (* the offset an index records for that section *)
 OffsetIsIndexOffset ==
   \A i \in 1..Len(hist) : hist[i].res = "meta" =>
-     hist[i].offset \in { r.off : r \in Range(IndexRecs(a.roots, a.secs, TRUE)) }
+     hist[i].offset \in { r.off : r \in Range(IndexRecsA(a, TRUE)) }
 (* a CARv2 source is never consumed past the end of the payload *)
 NoOverread == a.ver = 2 => consumed <= DataBase(a) + PayLen(a)
 SameCidSequence ==
